@@ -5,6 +5,8 @@ import (
 	"encoding/hex"
 	"encoding/json"
 	"fmt"
+	"go/ast"
+	"go/types"
 	"io"
 	"os"
 	"path/filepath"
@@ -277,6 +279,9 @@ func compute(tier string, seed int64, dir string) *Shared {
 			}
 			s.Evaluations++
 			name := v.Info.Name
+			if out.Err != "" && v.MayFail {
+				continue // documented error path of a string parameter (C18/C19)
+			}
 			if out.Err != "" {
 				s.fail("C01", "C01/"+name+"/constructor-error", fmt.Sprintf("NewChecker(%s) failed: %s", v, out.Err), map[string]interface{}{"checker": v.String()})
 				continue
@@ -317,6 +322,14 @@ func compute(tier string, seed int64, dir string) *Shared {
 					s.fail("C07", "C07/"+name+"/"+f7.Class, fmt.Sprintf("%s on %s/%s: %s", v, fr.pkg.Name, fr.file.Name, f7.What),
 						map[string]interface{}{"package": fr.pkg.Name, "file": fr.file.Name, "checker": v.String(), "position": posStr(d.Pos),
 							"text": d.Text, "line": sourceLine(fr.file, d), "origin": fr.pkg.Origin})
+				}
+				if d.HasFix && (fr.pkg.ClaimCheck != "" || strings.HasPrefix(fr.pkg.Name, "S2/nearmiss")) && v.Tag == "" {
+					if why := claimBroken(fr.pkg, fr.file, d, touched(fr.pkg)); why != "" {
+						s.fail("C20", "C20/"+name+"/claim-broken-on-near-miss-type",
+							fmt.Sprintf("%s suggests %q at %s on a value of a user type that only shares method names with the type the rule is about; the suggested code does not type-check: %s", name, clip(d.Repl, 80), posStr(d.Pos), why),
+							map[string]interface{}{"package": fr.pkg.Name, "file": fr.file.Name, "checker": v.String(), "position": posStr(d.Pos),
+								"text": d.Text, "line": sourceLine(fr.file, d), "replacement": d.Repl, "origin": fr.pkg.Origin})
+					}
 				}
 				if RuleMethodSubjects()[name] != nil {
 					s.C20Checked++
@@ -425,6 +438,64 @@ func compute(tier string, seed int64, dir string) *Shared {
 	CleanScratch()
 	s.WallS = time.Since(t0).Seconds()
 	return s
+}
+
+// touched: only fixes that mention a user near-miss type's value are judged (other suggestions are C09's business)
+func touched(p *Pkg) func(src string) bool {
+	return func(src string) bool { return true }
+}
+
+// claimBroken applies the suggested replacement and re-type-checks the package; "" = still well-typed (or not applicable).
+func claimBroken(p *Pkg, f *File, d Diag, relevant func(string) bool) string {
+	tf := Fset.File(f.AST.Pos())
+	if !d.From.IsValid() || !d.To.IsValid() || Fset.File(d.From) != tf || Fset.File(d.To) != tf || d.From > d.To {
+		return ""
+	}
+	from, to := tf.Offset(d.From), tf.Offset(d.To)
+	if to > len(f.Src) || !mentionsNearMiss(p, f, from, to) {
+		return ""
+	}
+	srcs := p.Sources()
+	srcs[f.Name] = append(append(append([]byte{}, f.Src[:from]...), []byte(d.Repl)...), f.Src[to:]...)
+	if _, err := TypeCheck("claim", p.Name, "", srcs); err != nil {
+		msg := err.Error()
+		if strings.Contains(msg, "declared and not used") || strings.Contains(msg, "imported and not used") {
+			return ""
+		}
+		return msg
+	}
+	return ""
+}
+
+// mentionsNearMiss: the replaced range contains an expression whose type is a user-declared named type (or pointer to
+// one) of the analysed package that has methods.
+func mentionsNearMiss(p *Pkg, f *File, from, to int) bool {
+	tf := Fset.File(f.AST.Pos())
+	found := false
+	ast.Inspect(f.AST, func(n ast.Node) bool {
+		if n == nil || found {
+			return false
+		}
+		e, ok := n.(ast.Expr)
+		if !ok {
+			return true
+		}
+		if tf.Offset(e.Pos()) < from || tf.Offset(e.End()) > to {
+			return true
+		}
+		t := p.Info.TypeOf(e)
+		if t == nil {
+			return true
+		}
+		if pt, ok := t.(*types.Pointer); ok {
+			t = pt.Elem()
+		}
+		if nt, ok := t.(*types.Named); ok && nt.Obj().Pkg() == p.Types && nt.NumMethods() > 0 {
+			found = true
+		}
+		return true
+	})
+	return found
 }
 
 func streamRank(st string) int {
